@@ -187,8 +187,16 @@ def run(ctx):
             repo = os.path.join(top, repo_name)
             os.makedirs(repo)
             ents = tree(r)
+            corpus = t == 0
+            if corpus:
+                # witness of D68 (fixed) first: a root inside an ignored directory, an exception naming one of its entries
+                tool = "git"
+                ents = [{"path": "c.zip", "kind": "d", "mode": 0o755, "mtime": 1700000000},
+                        {"path": "c.zip/src.zip", "kind": "f", "size": 2, "mode": 0o644, "mtime": 1700000002},
+                        {"path": "c.zip/a.txt", "kind": "f", "size": 2, "mode": 0o644, "mtime": 1700000002},
+                        {"path": "top.txt", "kind": "f", "size": 2, "mode": 0o644, "mtime": 1700000002}]
             fstree.materialise(repo, ents)
-            lines = gen_patterns(r, ents, tool)
+            lines = gen_patterns(r, ents, tool) if not corpus else [("glob", "*.zip"), ("glob", "!src.zip")]
             text = "".join(tx + "\n" for _, tx in lines)
             if tool == "git":
                 subprocess.run(["git", "init", "-q", repo], env=genv, stdout=subprocess.DEVNULL, stderr=subprocess.DEVNULL)
@@ -217,7 +225,10 @@ def run(ctx):
                 ref = hg_reference(lines)
             else:
                 ref = docker_reference(lines)
-            for spelled, cwd, subrel in r.sample(roots, min(len(roots), 2 if quick else 4)):
+            chosen = r.sample(roots, min(len(roots), 2 if quick else 4))
+            if corpus:
+                chosen = [(".", os.path.join(repo, "c.zip"), "c.zip"), (".", repo, "")]
+            for spelled, cwd, subrel in chosen:
                 trav = r.choice(["", " dfs", " bfs"])
                 mode = r.below(3)
                 cfg = None
